@@ -44,6 +44,8 @@ CLAIMED = {
          "Seeded search over request sequences (IPv4 / bracketed IPv6 literals and named hosts, default and explicit ports incl. 80 and 65535, with/without Host, 0-7 other headers in odd spellings, 8 methods, pipelined or waiting), all cuts of the client byte stream spaced in virtual time, origins that answer (framed or raw replies of 0-250 kB in chunks), refuse, do not exist, do not resolve or resolve to nothing, successive and overlapping clients, early client exits and stop(), over loss-free routes with MTU 8-9000. The harness origins record every byte: request line in origin form, header set, added Host, order; every byte a client reads is compared with the concatenated origin replies; 503, closes for malformed input and next-client acceptance are checked.", "3.18"),
  "C17": ("apps_socks", "exploration", "deterministic simulation: SOCKS4/5 proxy between generated clients and targets, valid negotiations at every cut plus field-by-field malformed clients, under sanitizers in two builds",
          "Seeded search over valid negotiations (v4/v5; CONNECT/BIND/UDP ASSOCIATE; IPv4 address, host names of length 1..255; accepting, refusing, non-existent and unresolvable targets; 1-255 offered methods; lock-step and pipelined) with the byte stream cut at every position and keyed payload of up to 200 kB in both directions, UDP datagrams with IPv4 and host-name headers and wrapped replies, and a separate swarm class of 18 TCP and 8 UDP mutations of valid traffic (wrong version, nmethods 0/255, unknown command or address type, name-length bytes 0/1/2/3/255, truncation at every byte, trailing garbage, random streams, short and inconsistent UDP headers) next to well-behaved witness sessions. Oracle: byte-exact relay, reply codes, command counters, UDP header strip/wrap; no sanitizer report or assertion in an NDEBUG and an asserts-on build.", "3.17"),
+ "C01": ("replay_env", "exploration", "deterministic simulation: the same generated program re-executed under perturbed environments, traces and capture bytes compared",
+         "Seeded programs taken from the other engines' generators (half of them TCP + UDP with packet capture over lossy queues and fault sinks; the rest connections through NAT, resolver, timer and UDP histories) are each executed six times: in-process, again after 1-4 unrelated simulations, on a churned dirty heap, and in three fresh processes with MALLOC_PERTURB_, ASLR on/off, a padded environment block and a wall clock shifted by up to ten years through link-time wrappers. Every execution must yield the identical trace hash (handler order, virtual times, error codes, byte counts, payload hashes, endpoints, every probe record and the raw capture file); on a mismatch both traces are re-recorded and the first differing record is reported.", "3.1"),
 }
 
 NOT_YET = "not claimed yet: the engine for this property is still under construction in this tree"
